@@ -169,10 +169,24 @@ func runMeta(c *mon.Case) {
 		o.Model = "rawdist"
 		o.Gamma = false
 	}
-	c.Input(map[string]interface{}{"rows": rows, "opts": o, "relation": rel})
+	// every second case: ONE model object serves all the DistMatrix calls of the relation, as `compute distance`
+	// (one object for all the alignments of its input) and `build distboot` (one object for all the replicates)
+	// do; the other cases build a fresh object per call. The case index decides, so that the generated inputs
+	// are those of the fresh-object variant.
+	reuse := c.Idx%2 == 1
+	c.Input(map[string]interface{}{"rows": rows, "opts": o, "relation": rel, "one_model_object_for_all_calls": reuse})
 	if illConditioned(rows, o) {
 		c.Count("skipped:ill-conditioned")
 		return
+	}
+	objects := "a fresh model object per call"
+	dist := dist
+	if reuse {
+		objects = "ONE model object re-used for all the calls"
+		shared := mkModel(o) // the sides of a relation differ by the alignment and the weights only
+		dist = func(al align.Alignment, o ref.NtOpts, cpus int) ([][]float64, error) {
+			return dna.DistMatrix(al, o.Weights, shared, -1, -1, -1, -1, o.Gamma, o.Alpha, cpus)
+		}
 	}
 	al := mkAl(rows)
 	base, err := dist(al, o, 1)
@@ -181,10 +195,16 @@ func runMeta(c *mon.Case) {
 		return
 	}
 	fail := func(msg string, rows2 []string, o2 ref.NtOpts) {
-		c.Failf("relation:"+rel+":"+o.Model, "relation %s broken for model %s: %s\nrows=%q opts=%+v\ntransformed rows=%q opts=%+v", rel, o.Model, msg, rows, o, rows2, o2)
+		c.Failf("relation:"+rel+":"+o.Model, "relation %s broken for model %s (%s): %s\nrows=%q opts=%+v\ntransformed rows=%q opts=%+v", rel, o.Model, objects, msg, rows, o, rows2, o2)
 	}
 	c.Count("relation:" + rel)
 	c.Count("model:" + o.Model)
+	if reuse {
+		c.Count("model-object:reused")
+		c.Count("model-object:reused:" + rel)
+	} else {
+		c.Count("model-object:fresh")
+	}
 	switch rel {
 	case "unit-weights":
 		o2 := o
@@ -326,7 +346,7 @@ func runMeta(c *mon.Case) {
 			fail(msg, rows2, o)
 		}
 	}
-	c.NonTrivial(rel, strings.Join(rows, "/"), fmt.Sprintf("%+v", o))
+	c.NonTrivial(rel, strings.Join(rows, "/"), fmt.Sprintf("%+v", o), fmt.Sprint(reuse))
 }
 
 // ---- event recorder + wrapping model ---------------------------------------------
@@ -796,12 +816,17 @@ func runFaultsLarge(c *mon.Case) {
 }
 
 func main() {
-	mon.SetNote("rule", "A (meta): random alignment (2..6 x 1..40, IUPAC, gaps) and option set, one relation per case (unit weights, column permutation, k-fold replication vs weight k, reverse complement, row permutation, raw scaling); B (schedules, -race build): the same call with 6 worker counts x random GOMAXPROCS x 4 perturbation plans through a recording/perturbing DistModel wrapper, bit-compared with the single worker result and checked offline (every requested pair evaluated exactly once, no pair twice, nothing after return); C (faults, -race build): for small matrices every k-th Distance and every k-th Sequence call fails, x 4 worker counts x 3 plans; the call must return the injected error (goroutine-dump deadlock probe otherwise); C2 (faults-large): matrices of 16..30 rows (120..435 pairs, more than any internal channel buffer) with an early isolated or persistent Distance failure or a Sequence failure x 4 worker counts. Non-trivial: A = case executed off the estimator singularities; B = one per distinct (input, worker-completion order) i.e. distinct interleavings observed; C = one per exhaustively enumerated matrix.")
+	mon.SetNote("rule", "A (meta): random alignment (2..6 x 1..40, IUPAC, gaps) and option set, one relation per case (unit weights, column permutation, k-fold replication vs weight k, reverse complement, row permutation, raw scaling); the DistMatrix calls of a relation are made with a fresh model object per call (even case indices) or with ONE model object re-used for all of them (odd case indices: `compute distance` re-uses one object over the alignments of its input, `build distboot` over its replicates); B (schedules, -race build): the same call with 6 worker counts x random GOMAXPROCS x 4 perturbation plans through a recording/perturbing DistModel wrapper, bit-compared with the single worker result and checked offline (every requested pair evaluated exactly once, no pair twice, nothing after return); C (faults, -race build): for small matrices every k-th Distance and every k-th Sequence call fails, x 4 worker counts x 3 plans; the call must return the injected error (goroutine-dump deadlock probe otherwise); C2 (faults-large): matrices of 16..30 rows (120..435 pairs, more than any internal channel buffer) with an early isolated or persistent Distance failure or a Sequence failure x 4 worker counts. Non-trivial: A = case executed off the estimator singularities; B = one per distinct (input, worker-completion order) i.e. distinct interleavings observed; C = one per exhaustively enumerated matrix.")
 	mon.SetNote("assumptions", "relations are not asked on ill-conditioned pairs (a logarithm argument within 1e-4 of 0 for some pair, decided by the independent oracle of C07);; the internal-gap counting mode is exempt from column permutation / replication (statement);; deadlock verdict = caller blocked inside DistMatrix and every goroutine it started blocked on a channel / WaitGroup in a full goroutine dump taken after the wrapper saw no activity for 2000 yields + 100 ms; anything else keeps waiting (driver watchdog = inconclusive);; race verdict = any report of the Go race detector (GORACE halt_on_error=1)")
 	mon.SetNote("exhaustive_subspaces", "fault positions: every k-th Distance call and every k-th Sequence call for every generated matrix of 3..4 rows (quick) / 3..6 rows (thorough)")
 	for _, rel := range []string{"unit-weights", "col-permutation", "replication", "revcomp", "row-permutation", "raw-scaling"} {
 		mon.Floor("relation:"+rel, 50)
 	}
+	for _, rel := range []string{"unit-weights", "col-permutation", "replication", "revcomp", "row-permutation", "raw-scaling"} {
+		mon.Floor("model-object:reused:"+rel, 50)
+	}
+	mon.Floor("model-object:reused", 10000)
+	mon.Floor("model-object:fresh", 10000)
 	mon.Floor("scheduled-runs", 300)
 	mon.Floor("runs:ranges", 30)
 	mon.Floor("fault-positions", 500)
